@@ -20,7 +20,7 @@ def jdump(o):
     return json.dumps(o, sort_keys=True, separators=(",", ":"), default=str)
 
 
-def proof_stage(prop, ev):
+def proof_stage(prop, ev, tier="quick"):
     """build the Lean project and audit the property theorems; returns list of problems"""
     problems = []
     hits = core.grep_forbidden()
@@ -47,6 +47,17 @@ def proof_stage(prop, ev):
         extra = set(ax) - core.STD_AXIOMS
         if extra:
             problems.append("theorem %s depends on non-standard axioms %s" % (t, sorted(extra)))
+    if tier == "thorough":
+        # independent re-check of the compiled property module (and everything it imports) by leanchecker
+        import subprocess
+        try:
+            p = subprocess.run(["lake", "env", "leanchecker", "DimModel.Props.%s" % prop.id], cwd=core.LEAN, capture_output=True,
+                               text=True, timeout=3000)
+            ev["leanchecker"] = {"module": "DimModel.Props.%s" % prop.id, "exit": p.returncode, "tail": (p.stdout + p.stderr)[-300:]}
+            if p.returncode != 0:
+                problems.append("leanchecker rejected DimModel.Props.%s: %s" % (prop.id, (p.stdout + p.stderr)[-800:]))
+        except subprocess.TimeoutExpired:
+            ev["leanchecker"] = {"module": "DimModel.Props.%s" % prop.id, "exit": None, "tail": "timeout"}
     ev["obligations"] = len(prop.theorems)
     ev["discharged"] = len(prop.theorems) - len(missing) if not problems else 0
     return problems, log, table_info
@@ -75,7 +86,7 @@ def main(argv):
 
     # ---------------- proof stage
     try:
-        problems, log, table_info = proof_stage(prop, cov)
+        problems, log, table_info = proof_stage(prop, cov, tier)
     except Exception as e:
         print("INFRA: proof stage crashed: %s" % e)
         traceback.print_exc()
